@@ -656,6 +656,19 @@ func (e *ev) callMacro(m *macroDef, args []Val) Val {
 	return Str(s)
 }
 
+// numberLike reports whether a string could be read as a number by some
+// convention (leading blanks, sign, digit, point, or "inf"/"nan" words).
+func numberLike(s string) bool {
+	t := strings.ToLower(strings.TrimSpace(s))
+	if t == "" {
+		return s != ""
+	}
+	if strings.ContainsAny(t[:1], "0123456789+-.") {
+		return true
+	}
+	return strings.HasPrefix(t, "inf") || strings.HasPrefix(t, "nan")
+}
+
 // ---- expressions ----------------------------------------------------------
 
 var safePatterns = map[string]*regexp.Regexp{}
@@ -906,6 +919,24 @@ func (e *ev) binary(x *E) Val {
 	case "!=":
 		return Bool(!LooseEq(l, r))
 	case "<", "<=", ">", ">=":
+		if l.K == KStr && r.K == KStr {
+			// two strings that do not spell numbers are ordered as strings,
+			// byte by byte ('apple' < 'banana'); anything number-like is
+			// outside the region
+			if numberLike(l.S) || numberLike(r.S) {
+				leave("ordering comparison on number-like strings")
+			}
+			e.sh.feature("string-ordering")
+			switch op {
+			case "<":
+				return Bool(l.S < r.S)
+			case "<=":
+				return Bool(l.S <= r.S)
+			case ">":
+				return Bool(l.S > r.S)
+			}
+			return Bool(l.S >= r.S)
+		}
 		if l.K != KNum || r.K != KNum {
 			leave("ordering comparison on non-numbers")
 		}
